@@ -69,6 +69,13 @@ func (s *rServer) RoundTrip(req *http.Request) (*http.Response, error) {
 	switch s.state {
 	case "refuse":
 		return nil, fmt.Errorf("dial tcp 203.0.113.1:443: connect: connection refused")
+	case "hang-get":
+		if req.Method == "HEAD" {
+			return mk(200, "text/yaml", ""), nil
+		}
+		s.hangs++
+		vs.Block0(vs.SiteNet, func() { <-req.Context().Done() })
+		return nil, req.Context().Err()
 	case "hang":
 		s.hangs++
 		vs.Block0(vs.SiteNet, func() { <-req.Context().Done() })
@@ -105,6 +112,7 @@ type rStep struct {
 }
 
 type rProg struct {
+	Optional bool // the remote include is marked optional: true
 	Scheme   string // https, http
 	Insecure bool
 	Steps    []rStep
@@ -116,6 +124,7 @@ func genR(ch *vs.Choices, tier string) *rProg {
 		p.Scheme = "http"
 		p.Insecure = ch.Bool(1, 2)
 	}
+	p.Optional = ch.Bool(1, 4)
 	n := 3 + ch.Draw(6)
 	if tier == "thorough" {
 		n = 3 + ch.Draw(10)
@@ -128,7 +137,7 @@ func genR(ch *vs.Choices, tier string) *rProg {
 		}
 		switch s.Kind {
 		case "server":
-			s.Kind = "server:" + []string{"up", "up", "refuse", "hang", "404", "500", "ctype", "short"}[ch.Draw(8)]
+			s.Kind = "server:" + []string{"up", "up", "refuse", "hang", "404", "500", "ctype", "short", "hang-get"}[ch.Draw(9)]
 		case "adv":
 			s.Adv = []time.Duration{time.Second, time.Minute, time.Hour, 25 * time.Hour, 24 * 8 * time.Hour}[ch.Draw(5)]
 		case "corrupt":
@@ -189,6 +198,10 @@ func runR(t *testing.T, ch *vs.Choices, prop, tier string, render bool) *vs.RunO
 	}
 	url := p.Scheme + "://sim.test/tf.yml"
 	rootYAML := fmt.Sprintf("version: '3'\nsilent: true\nincludes:\n  r: %s\ntasks:\n  default:\n    cmds:\n      - task: r:hello\n", url)
+	if p.Optional {
+		// optional only excuses an include that cannot be located; it must not excuse a refused approval
+		rootYAML = fmt.Sprintf("version: '3'\nsilent: true\nincludes:\n  r:\n    taskfile: %s\n    optional: true\ntasks:\n  default:\n    cmds:\n      - task: r:hello\n  local:\n    cmds:\n      - echo \"R|local\"\n", url)
+	}
 	out.Shape = vs.HashString(rootYAML + strings.Join(hs, "\n") + fmt.Sprint(p.Insecure))
 	dir, err := newRunDir()
 	if err != nil {
@@ -327,7 +340,7 @@ func runR(t *testing.T, ch *vs.Choices, prop, tier string, render bool) *vs.RunO
 				oc := sim.Drive(root)
 				stdin.Close()
 				if oc == vs.Deadlock {
-					out.Violate("C07", "deadlock|family_R", "%s deadlocked: %v", desc, sim.BlockedSites(gid))
+					out.Violate("C20", "invocation_never_returns|server="+srv.state, "%s never returned (simulated hour without progress): %v", desc, sim.BlockedSites(gid))
 					return
 				}
 				if oc == vs.StepCap {
@@ -374,7 +387,9 @@ func runR(t *testing.T, ch *vs.Choices, prop, tier string, render bool) *vs.RunO
 				if p.Scheme == "http" && !p.Insecure {
 					if ran != 0 {
 						out.Violate("C20", "insecure_http_ran", "%s: plain http without --insecure executed v%d", desc, ran)
-					} else if !crashed && code != 105 {
+					} else if !crashed && code != 105 && !p.Optional {
+						// (an optional include that cannot be constructed is skipped: the refusal then shows as a
+						// missing task, not as 105; what matters is that nothing remote ran)
 						out.Violate("C20", "insecure_http_status", "%s: plain http without --insecure: exit %d, want 105", desc, code)
 					}
 					continue
@@ -396,7 +411,7 @@ func runR(t *testing.T, ch *vs.Choices, prop, tier string, render bool) *vs.RunO
 					}
 				}
 				// ---- availability ----------------------------------------------------------------------
-				netDown := srv.state == "refuse" || srv.state == "hang"
+				netDown := srv.state == "refuse" || srv.state == "hang" || srv.state == "hang-get"
 				if cacheGood && !crashed && (s.Offline || netDown) {
 					if ran != cacheVersion || code != 0 {
 						how := "offline"
